@@ -3,6 +3,15 @@
 use raindb::verif as v;
 use rdbv::util::*;
 
+fn vfile(s: &str) -> v::VFile {
+    let p: Vec<&str> = s.split(':').collect();
+    (num(p[0]), num(p[1]), (hex(p[2]), num(p[3])), (hex(p[4]), num(p[5])))
+}
+
+fn opts() -> raindb::DbOptions {
+    v::options_with(std::sync::Arc::new(raindb::fs::InMemoryFileSystem::new()), 4096)
+}
+
 fn main() {
     let args: Vec<String> = std::env::args().skip(1).collect();
     if args.is_empty() {
@@ -23,6 +32,28 @@ fn main() {
             let r = v::key_range_for_files(&files);
             println!("start={}:{}", tohex(&r.0 .0), r.0 .1);
             println!("end={}:{}", tohex(&r.1 .0), r.1 .1);
+        }
+        // find_file targetU:targetS num:size:smU:smS:lgU:lgS ...
+        "find_file" => {
+            let t = key(a[1]);
+            let files: Vec<v::VFile> = a[2..].iter().map(|f| vfile(f)).collect();
+            match v::find_file(&files, &t) {
+                Some(i) => println!("index={}", i),
+                None => println!("index=none"),
+            }
+        }
+        "fm_compare" => {
+            let f: Vec<v::VFile> = a[1..].iter().map(|f| vfile(f)).collect();
+            println!("cmp={},{},{}", v::fm_compare(&f[0], &f[1]), v::fm_compare(&f[1], &f[2]), v::fm_compare(&f[0], &f[2]));
+        }
+        // overlapping_inputs level begin|- end|- files...
+        "overlapping_inputs" => {
+            let level = num(a[1]) as usize;
+            let b = if a[2] == "none" { None } else { Some(key(a[2])) };
+            let e = if a[3] == "none" { None } else { Some(key(a[3])) };
+            let files: Vec<v::VFile> = a[4..].iter().map(|f| vfile(f)).collect();
+            let r = v::overlapping_inputs_full(opts(), level, &files, b, e);
+            println!("files={}", r.iter().map(|x| x.to_string()).collect::<Vec<_>>().join(","));
         }
         other => {
             eprintln!("unknown command {}", other);
